@@ -193,7 +193,9 @@ func tsOf(l string) int64 {
 //	ort <tun|rtr|grp> <waiting|burst> <n> <rounds>
 //
 // waiting: the application is blocked in a receive from Inbound() while n telegrams arrive back to
-// back; burst: nobody receives while the n telegrams arrive, then the application reads them all.
+// back; burst: nobody receives while the n telegrams arrive, then the application reads them all;
+// mixed: nobody receives during the first third of the burst, then the application reads while the
+// rest keeps arriving.
 // Trace: rounds=<r> bad=<k> first=<order seen in the first bad round>
 func runOrderRT(t *testing.T, line string) string {
 	f := strings.Fields(line)
@@ -275,10 +277,18 @@ func runOrderRT(t *testing.T, line string) string {
 		go func() {
 			r := true
 			for k := 0; k < n && r; k++ {
+				if mode == "mixed" && client != "grp" && k == n/3 {
+					close(gate) // the application starts receiving while telegrams keep arriving
+				}
 				r = feed(k)
 			}
 			fed <- r
 		}()
+		if mode == "mixed" && client == "grp" {
+			// the sequential forwarder stalls on its first event: the reader joins a little later
+			time.Sleep(time.Millisecond)
+			close(gate)
+		}
 		if mode == "burst" {
 			if client == "grp" {
 				// a sequential forwarder takes its next input only after the previous event was
